@@ -2,6 +2,7 @@
   TwProofs.C20 — custom functions: unique registration, faithful conversion.
 -/
 import TwModel
+import TwProofs.Lemmas.Roundtrip
 
 namespace Tw.C20
 open Tw
@@ -114,6 +115,13 @@ theorem unregistered_error (fuel : Nat) (c : Ctx) (env : Env) (t : Token) (recv 
     evalExpr (fuel + 2) c env (.call t recv fn []) = .err "ErrNoFuncForThisType" t.errorLine [fn, rv.typeName] := by
   rw [show fuel + 2 = (fuel + 1) + 1 from rfl, evalExpr]
   simp [hrecv, htab, evalExprs, hb, hc]
+
+/-- **faithful conversion**: handing a value to a custom function as a plain Go value
+    (`Object.Val()`) and converting it back (`NativeToObject`, the path every result takes, shared
+    with the data map of C12) yields the value itself — for every value, nested arrays and objects
+    included -/
+theorem conversion_roundtrip (v : Val) (h : WFVal v) : nativeToObject (Val.toNative v) = some v :=
+  native_roundtrip v h
 
 /-! non-vacuity -/
 
